@@ -104,13 +104,21 @@ def _dict_key_cast(key: Any) -> Any:
     return key
 
 
+def _key_text(key: Any) -> str:
+    try:
+        return str(key)
+    except ValueError:
+        # an int too long for str(), see sys.set_int_max_str_digits
+        return f'<{key.bit_length()}-bit integer>'
+
+
 def _get_item(container: Any, key: Any) -> Any:
     key = _key_cast(container, key)
 
     try:
         return container[key]
     except LookupError:
-        raise ParserError(f'Key error \'{key}\'')
+        raise ParserError(f'Key error \'{_key_text(key)}\'')
 
 
 def _del(container: Any, key: Any) -> Any:
@@ -142,7 +150,7 @@ def _set_with_op(container: Any, key: Any, op: str, value: Any) -> Any:
     try:
         container[key]
     except LookupError:
-        raise ParserError(f'Key error \'{key}\'')
+        raise ParserError(f'Key error \'{_key_text(key)}\'')
 
     if op == '+=':
         container[key] += value
